@@ -14,7 +14,7 @@ import sys
 import time
 
 ROOT = os.path.dirname(os.path.dirname(os.path.abspath(__file__)))
-EVIDENCE = os.path.join(ROOT, "evidence")
+EVIDENCE = os.environ.get("PYVC_EVIDENCE_DIR") or os.path.join(ROOT, "evidence")
 REPLAY = os.path.join(ROOT, "replay")
 FINDINGS = os.path.join(ROOT, "KNOWN_FINDINGS.txt")
 
@@ -125,6 +125,8 @@ def finish(prop, results, t0, seed, tier, level="proof", extra_cov=None, assumpt
             continue
         det = o.get("detail", "")
         if det.startswith("NOWITNESS"):
+            # refuted only under an abstraction (uninterpreted spec function / opaque input) and no concrete input
+            # found: the abstraction may be too coarse, so this is undecided, never a violation
             o["status"] = "undecided"      # a failed structural obligation without a failing input is not a violation
             undecided.append(o)
         elif det.startswith("NOT-CONFIRMED"):
